@@ -407,16 +407,19 @@ func runC03(c *Ctx) {
 		ul := p.Func("waddrmgr", spec[0], "unlock")
 		okU := false
 		if ul != nil {
-			for _, call := range callsNamed(ul, "Decrypt") {
-				okU = !reachableAvoiding(ul, nil, call, func(from *ssa.BasicBlock, si int) bool {
-					iff, ok := from.Instrs[len(from.Instrs)-1].(*ssa.If)
-					if !ok {
-						return false
+			// the decryption may sit in a private part of unlock (early return when the clear text is cached)
+			nDec, nGuarded := 0, 0
+			for _, uf := range p.regionOf(ul) {
+				for _, call := range callsNamed(uf, "Decrypt") {
+					nDec++
+					if !reachableAvoiding(uf, nil, call, func(from *ssa.BasicBlock, si int) bool {
+						return isEmptyFieldEdge(from, si, spec[1])
+					}) {
+						nGuarded++
 					}
-					k := condKey(iff.Cond, nil)
-					return k == "e:"+spec[1] && si == 0
-				})
+				}
 			}
+			okU = nDec > 0 && nDec == nGuarded
 		}
 		c.Check("C03-R6", "lock-zeroes-and-nils:"+spec[0], fn.Pos(), z && n && okU,
 			spec[0]+": lock() must zero AND nil "+spec[1]+" because unlock() re-decrypts only when the buffer is empty; otherwise after Lock/Unlock the all-zero buffer is returned as the key")
@@ -427,6 +430,8 @@ func runC03(c *Ctx) {
 	checkIssuerAddrType(c, "C03-R5")
 	checkAddrTypeFollowsBranch(c, "C03-R5")
 	checkImportAddressIDAgreesWithConstructor(c, "C03-R5") // imported keys are found again under the address they map to
+	checkExtKeyAddressesRegisteredForUnlock(c, "C03-R3")
+	checkInvalidationAlwaysEvicts(c, "C03-R4")             // an account object outlives its row only until it is invalidated
 }
 
 func isExtractOf(v ssa.Value, call *ssa.Call, idx int) bool {
@@ -542,4 +547,100 @@ func incrementedBetween(p *Program, fn *ssa.Function, recorded, derived string) 
 		}
 	}
 	return n >= 1
+}
+
+// isEmptyFieldEdge: the edge of a `len(x.field) ==/!=/>/< 0` test on which the field is known to be empty.
+func isEmptyFieldEdge(from *ssa.BasicBlock, si int, field string) bool {
+	if len(from.Instrs) == 0 {
+		return false
+	}
+	iff, ok := from.Instrs[len(from.Instrs)-1].(*ssa.If)
+	if !ok {
+		return false
+	}
+	bo, ok := iff.Cond.(*ssa.BinOp)
+	if !ok {
+		return false
+	}
+	lenOf := func(v ssa.Value) bool {
+		call, ok := v.(*ssa.Call)
+		if !ok {
+			return false
+		}
+		bi, ok := call.Call.Value.(*ssa.Builtin)
+		if !ok || bi.Name() != "len" {
+			return false
+		}
+		_, f, _, okf := fieldOf(call.Call.Args[0])
+		return okf && f == field
+	}
+	zero := func(v ssa.Value) bool { k, ok := constInt(v); return ok && k == 0 }
+	switch {
+	case lenOf(bo.X) && zero(bo.Y):
+		switch bo.Op {
+		case token.EQL, token.LEQ:
+			return si == 0
+		case token.NEQ, token.GTR:
+			return si == 1
+		}
+	case zero(bo.X) && lenOf(bo.Y):
+		switch bo.Op {
+		case token.EQL, token.GEQ:
+			return si == 0
+		case token.NEQ, token.LSS:
+			return si == 1
+		}
+	}
+	return false
+}
+
+// checkExtKeyAddressesRegisteredForUnlock: an address object built from a derived extended key while the manager is
+// locked holds no private key; it gets one at the next Unlock only if it was put on the derive-on-unlock list. Every
+// function that builds such an object (a call of the from-extended-key constructor) also records it in a derive-on-unlock
+// entry (whether the entry is queued is decided by the locked / watch-only tests next to it, which have rules of their
+// own). A path-derivation that builds the object directly answers ErrWatchingOnly for PrivKey() forever after an unlock.
+func checkExtKeyAddressesRegisteredForUnlock(c *Ctx, rule string) {
+	p := c.P
+	ctor := p.Func("waddrmgr", "", "newManagedAddressFromExtKey")
+	if ctor == nil {
+		c.Unresolved(rule, "waddrmgr.newManagedAddressFromExtKey")
+		return
+	}
+	n := 0
+	for _, fn := range p.FuncsIn("waddrmgr") {
+		for _, ci := range callsOf(fn) {
+			call, ok := ci.(*ssa.Call)
+			if !ok || !p.isCallTo(call, ctor) {
+				continue
+			}
+			n++
+			registered := false
+			for _, b := range fn.Blocks {
+				for _, ins := range b.Instrs {
+					st, ok := ins.(*ssa.Store)
+					if !ok {
+						continue
+					}
+					fa, ok := st.Addr.(*ssa.FieldAddr)
+					if !ok {
+						continue
+					}
+					if tn, f := fieldAddrName(fa); tn != "unlockDeriveInfo" || f != "managedAddr" {
+						continue
+					}
+					for _, o := range (&Slicer{P: p, KeepExtract: true}).Origins(st.Val) {
+						if ex, ok := o.(*ssa.Extract); ok && ex.Tuple == ssa.Value(call) {
+							registered = true
+						}
+						if o == ssa.Value(call) {
+							registered = true
+						}
+					}
+				}
+			}
+			c.Check(rule, "ext-key-address-recorded-for-derive-on-unlock:"+fnName(fn), call.Pos(), registered,
+				fnName(fn)+" builds an address object from a derived extended key without recording it in a derive-on-unlock entry: built while the manager is locked, the object never receives its private key, and PrivKey() fails although the wallet is unlocked")
+		}
+	}
+	c.Floor(rule, "constructions of addresses from extended keys", n, 3)
 }
